@@ -437,15 +437,22 @@ def check_validators(ctx, f, L, g=None):
               "board validation never relates the two kings' squares (adjacent kings would be accepted)", where,
               sample={"atom": "king_moves(king(W)) ∩ black king = ∅"})
     spec_straight = [[(EMPTY(AND(colors(WHITE), colors(BLACK))), True), (ka or kings_apart[0], True), (opp_check, True)]]
-    compare(ctx, "board:straight", "board_is_valid's unconditional part (colours disjoint, kings apart, side not to move not in check)", straight, spec_straight, where)
-    per_colour = [[(R(LEN(colors(EC)), None, 16), True), (R(LEN(AND(colors(EC), pieces("King"))), 1, 1), True),
-                   (R(LEN(AND(colors(EC), pieces("Pawn"))), None, 8), True), (EMPTY(AND(colors(EC), pieces("Pawn"), rank18)), True)]]
-    found = False
-    for key, (S, dnf) in loops.items():
-        if S == ("ref", ("array", tuple(("enum", COLOR, n) for n in ("White", "Black")))) or "Color" in key:
-            found = True
+
+    def per_colour_for(c_):
+        return [(R(LEN(colors(c_)), None, 16), True), (R(LEN(AND(colors(c_), pieces("King"))), 1, 1), True),
+                (R(LEN(AND(colors(c_), pieces("Pawn"))), None, 8), True), (EMPTY(AND(colors(c_), pieces("Pawn"), rank18)), True)]
+    per_colour = [per_colour_for(EC)]
+    colour_loops = [(key, S, dnf) for key, (S, dnf) in loops.items()
+                    if S == ("ref", ("array", tuple(("enum", COLOR, n) for n in ("White", "Black")))) or "Color" in key]
+    if colour_loops:
+        compare(ctx, "board:straight", "board_is_valid's unconditional part (colours disjoint, kings apart, side not to move not in check)", straight, spec_straight, where)
+        for key, S, dnf in colour_loops:
             compare(ctx, "board:per-colour", "board_is_valid's per-colour part (<=16 pieces, one king, <=8 pawns, no pawn on ranks 1/8)", dnf, per_colour, where)
-    ctx.check(found, "board:per-colour-loop", "board_is_valid has no loop over both colours", where)
+    else:
+        # the per-colour requirements written out once for White and once for Black
+        spec_all = [spec_straight[0] + per_colour_for(WHITE) + per_colour_for(BLACK)]
+        compare(ctx, "board:straight", "board_is_valid (colours disjoint, kings apart, side not to move not in check; per colour <=16 pieces, one king, <=8 pawns, "
+                "no pawn on ranks 1/8)", straight, spec_all, where)
     # ---------------- castling
     b, straight, loops = acceptance(f, L, g.validator("castling"))
     where = loc(b)
